@@ -511,19 +511,19 @@ int main(int argc, char **argv) {
     snprintf(mc_bounds, sizeof mc_bounds,
              "A 2^19 headers x %d fields; B 8^6 windows x 10 offsets x 16 res x 6 base cells x 3 fills; C <=3 deviations on "
              "384 fills; D %d alphabets x 16 res x 2 base cells x 4^15 (a quick run also does the first alphabet for "
-             "resolutions given by its deadline: none); E r<=%d; closure over FULL(0..%d) + FINE level %d at all 16 "
+             "resolutions given by its deadline: none); E r<=%d; closure over FULL(0..%d) + FINE level %d (not neighbour-closed) at all 16 "
              "resolutions",
              A_n, nalph, maxr, mc_thorough ? 3 : 2, mc_thorough ? 1 : 2);
     mc_phase("A header sweep", ph_A, NULL);
     mc_phase("B window sweep", ph_B, NULL);
     mc_phase("C deviation sweep", ph_C, NULL);
     mc_phase("E small-resolution counts", ph_E, &maxr);
+    if (nalph) mc_phase("D reduced-alphabet products", ph_D, &nalph);
     for (int r = 0; r <= (mc_thorough ? 3 : 2); r++) dom_full(r, &g_dom);
-    for (int r = 3; r <= 15; r++) dom_fine(r, mc_thorough ? 1 : 2, &g_dom);
+    for (int r = 3; r <= 15; r++) dom_fine_raw(r, mc_thorough ? 1 : 2, &g_dom);
     uv_sortuniq(&g_dom);
     mc_phase("closure driver", ph_closure, NULL);
     dom_idx(mc_thorough ? 1 : 0, &g_idx);
     mc_phase("closure of accepted edge / vertex indexes over the hostile alphabet", ph_decode, NULL);
-    if (nalph) mc_phase("D reduced-alphabet products", ph_D, &nalph);
     return mc_finish();
 }
